@@ -367,6 +367,8 @@ def main():
     vlib.proof_phase(ctx, extra_targets=['Extract/ExtractCodec.vo'])
     # the decoder's control flow as translated from decode.hpp on this run (Gen/GenDec.v): it IS Codec.decode
     vlib.proof_phase_extra(ctx, 'Properties_C13_source')
+    # the array bounds the encoder prints, as translated from generator.hpp (Gen/GenEnc.v): they ARE e_H .. e_T of Codec.encode
+    vlib.proof_phase_extra(ctx, 'Properties_C13_enc_source')
     K = consts()
     mdl, drv = base.build_binaries(ctx)
     if ctx.replay:
